@@ -144,6 +144,13 @@ struct Inner {
     last: usize,
     preemptions: u32,
     switches: u32,
+    /// granted threads that have not come back for a long time: presumably
+    /// blocked in a primitive the scheduler does not own (a std Mutex, a channel)
+    /// whose holder is parked at a scheduling point
+    foreign: Vec<bool>,
+    foreign_events: u32,
+    /// bumped at every scheduling point and thread exit
+    progress: u64,
 }
 
 const NONE: usize = usize::MAX;
@@ -165,6 +172,10 @@ pub struct RunReport {
     pub preemptions: u32,
     pub switches: u32,
     pub objects: u32,
+    /// how often a granted thread had to be considered blocked in a foreign
+    /// primitive and another thread was let run beside it (the run is then
+    /// no longer a pure function of the schedule)
+    pub foreign_blocks: u32,
 }
 
 thread_local! {
@@ -196,6 +207,11 @@ impl Inner {
             },
             _ => false,
         }
+    }
+
+    /// a granted thread that is (as far as known) really executing
+    fn someone_runs(&self) -> bool {
+        (0..self.n).any(|t| self.st[t] == TSt::Running && !self.foreign[t])
     }
 
     fn describe_deadlock(&self) -> String {
@@ -240,6 +256,9 @@ impl Sched {
                 last: NONE,
                 preemptions: 0,
                 switches: 0,
+                foreign: vec![false; n],
+                foreign_events: 0,
+                progress: 0,
             }),
             cvs: (0..n).map(|_| Condvar::new()).collect(),
             harness_cv: Condvar::new(),
@@ -270,6 +289,9 @@ impl Sched {
                 g.done = true;
                 g.current = NONE;
                 self.harness_cv.notify_all();
+            } else if g.st.iter().any(|s| *s == TSt::Running) {
+                // somebody granted earlier (and believed to be blocked in a foreign
+                // primitive) is still out there: it will call in when it gets on
             } else {
                 let d = g.describe_deadlock();
                 self.abort_all(g, Abort::Deadlock(d));
@@ -366,7 +388,7 @@ impl Sched {
                 drop(g);
                 unwind();
             }
-            if g.current == me && g.st[me] == TSt::Running {
+            if g.st[me] == TSt::Running {
                 return;
             }
             g = self.cvs[me].wait(g).unwrap_or_else(|e| e.into_inner());
@@ -388,7 +410,13 @@ impl Sched {
             addr as u32
         };
         g.st[me] = TSt::Waiting { kind, addr, obj };
-        self.pick(&mut g);
+        g.foreign[me] = false;
+        g.progress += 1;
+        // exactly one thread holds the baton - except beside a thread that is blocked in
+        // a foreign primitive; whoever comes in while another one really runs just queues
+        if !g.someone_runs() {
+            self.pick(&mut g);
+        }
         self.wait_turn(g, me);
     }
 
@@ -413,15 +441,41 @@ impl Sched {
     pub fn wait_done(&self, step_timeout: Duration) -> RunReport {
         let mut g = self.lock();
         let mut timed_out = false;
+        let mut seen = g.progress;
+        let mut since = std::time::Instant::now();
+        let foreign_after = Duration::from_millis(400);
         while !g.done && g.abort.is_none() {
-            let (ng, res) = self
+            let (ng, _res) = self
                 .harness_cv
-                .wait_timeout(g, step_timeout)
+                .wait_timeout(g, Duration::from_millis(50))
                 .unwrap_or_else(|e| e.into_inner());
             g = ng;
-            if res.timed_out() && !g.done && g.abort.is_none() {
+            if g.done || g.abort.is_some() {
+                break;
+            }
+            if g.progress != seen {
+                seen = g.progress;
+                since = std::time::Instant::now();
+                continue;
+            }
+            let idle = since.elapsed();
+            if idle >= step_timeout {
+                // nobody reached a scheduling point for the whole budget
                 timed_out = true;
                 break;
+            }
+            if idle >= foreign_after && g.someone_runs() && (0..g.n).any(|t| g.enabled(t)) {
+                // the granted thread does not come back although others could run: it is
+                // taken to be blocked in a primitive the scheduler does not own, held by a
+                // thread that is parked here. Let another thread run beside it.
+                for t in 0..g.n {
+                    if g.st[t] == TSt::Running {
+                        g.foreign[t] = true;
+                    }
+                }
+                g.foreign_events += 1;
+                self.pick(&mut g);
+                since = std::time::Instant::now();
             }
         }
         RunReport {
@@ -433,6 +487,7 @@ impl Sched {
             preemptions: g.preemptions,
             switches: g.switches,
             objects: g.ids.len() as u32,
+            foreign_blocks: g.foreign_events,
         }
     }
 }
@@ -468,8 +523,12 @@ pub fn exit() {
             l.readers.retain(|&r| r != me);
         }
         g.st[me] = TSt::Finished;
+        g.foreign[me] = false;
+        g.progress += 1;
         if g.abort.is_none() {
-            s.pick(&mut g);
+            if !g.someone_runs() {
+                s.pick(&mut g);
+            }
         } else if g.st.iter().all(|x| *x == TSt::Finished) {
             s.harness_cv.notify_all();
         }
